@@ -4,6 +4,7 @@ import (
 	"bytes"
 	"encoding/binary"
 	"errors"
+	"fmt"
 	"io"
 
 	"golang.org/x/exp/constraints"
@@ -41,6 +42,15 @@ func ReadBasicTypeLE[T BasicType](buf *bytes.Buffer) (T, error) {
 	return v, err
 }
 
+// lengthPrefix converts a length or element count to its wire prefix type. It fails
+// when the value does not fit, instead of letting the conversion wrap around.
+func lengthPrefix[T constraints.Unsigned](n int) (T, error) {
+	if n < 0 || uint64(n) > uint64(^T(0)) {
+		return 0, fmt.Errorf("length %d does not fit its %d-bit length prefix", n, binary.Size(T(0))*8)
+	}
+	return T(n), nil
+}
+
 // boundedCap limits the capacity reserved for a list whose element count was read
 // from the wire to the number of bytes actually left in the buffer, so that a
 // hostile count cannot make a reader allocate memory for data that is not there.
@@ -52,7 +62,11 @@ func boundedCap(count int, buf *bytes.Buffer) int {
 }
 
 func WriteBasicTypeList[T constraints.Unsigned, K BasicType](buf *bytes.Buffer, values []K) error {
-	if err := binary.Write(buf, binary.BigEndian, T(len(values))); err != nil {
+	n, err := lengthPrefix[T](len(values))
+	if err != nil {
+		return err
+	}
+	if err := binary.Write(buf, binary.BigEndian, n); err != nil {
 		return err
 	}
 	for _, s := range values {
@@ -64,7 +78,11 @@ func WriteBasicTypeList[T constraints.Unsigned, K BasicType](buf *bytes.Buffer, 
 }
 
 func WriteBasicTypeListLE[T constraints.Unsigned, K BasicType](buf *bytes.Buffer, values []K) error {
-	if err := binary.Write(buf, binary.LittleEndian, T(len(values))); err != nil {
+	n, err := lengthPrefix[T](len(values))
+	if err != nil {
+		return err
+	}
+	if err := binary.Write(buf, binary.LittleEndian, n); err != nil {
 		return err
 	}
 	for _, s := range values {
@@ -119,7 +137,11 @@ func ReadBasicTypeListLE[T constraints.Unsigned, K BasicType](buf *bytes.Buffer)
 // ----------------------------
 
 func WriteString[T constraints.Unsigned](buf *bytes.Buffer, s string) error {
-	if err := binary.Write(buf, binary.BigEndian, T(len(s))); err != nil {
+	n, err := lengthPrefix[T](len(s))
+	if err != nil {
+		return err
+	}
+	if err := binary.Write(buf, binary.BigEndian, n); err != nil {
 		return err
 	}
 	if _, err := buf.WriteString(s); err != nil {
@@ -129,7 +151,11 @@ func WriteString[T constraints.Unsigned](buf *bytes.Buffer, s string) error {
 }
 
 func WriteStringLE[T constraints.Unsigned](buf *bytes.Buffer, s string) error {
-	if err := binary.Write(buf, binary.LittleEndian, T(len(s))); err != nil {
+	n, err := lengthPrefix[T](len(s))
+	if err != nil {
+		return err
+	}
+	if err := binary.Write(buf, binary.LittleEndian, n); err != nil {
 		return err
 	}
 	if _, err := buf.WriteString(s); err != nil {
@@ -209,7 +235,11 @@ func WriteFixedStringList[T constraints.Unsigned](buf *bytes.Buffer, values []st
 }
 
 func WriteFixedStringListWithPadding[T constraints.Unsigned](buf *bytes.Buffer, values []string, fixedLen int, padChar rune, padLeft bool) error {
-	if err := binary.Write(buf, binary.BigEndian, T(len(values))); err != nil {
+	n, err := lengthPrefix[T](len(values))
+	if err != nil {
+		return err
+	}
+	if err := binary.Write(buf, binary.BigEndian, n); err != nil {
 		return err
 	}
 
@@ -227,7 +257,11 @@ func WriteFixedStringListLE[T constraints.Unsigned](buf *bytes.Buffer, values []
 	return WriteFixedStringListWithPaddingLE[T](buf, values, fixedLen, ' ', false)
 }
 func WriteFixedStringListWithPaddingLE[T constraints.Unsigned](buf *bytes.Buffer, values []string, fixedLen int, padChar rune, padLeft bool) error {
-	if err := binary.Write(buf, binary.LittleEndian, T(len(values))); err != nil {
+	n, err := lengthPrefix[T](len(values))
+	if err != nil {
+		return err
+	}
+	if err := binary.Write(buf, binary.LittleEndian, n); err != nil {
 		return err
 	}
 
@@ -303,13 +337,21 @@ func ReadFixedStringListTrimPaddingLE[T constraints.Unsigned](buf *bytes.Buffer,
 // K: type used for each string's length prefix (e.g., uint8, uint16, uint32)
 func WriteStringListLE[T constraints.Unsigned, K constraints.Unsigned](buf *bytes.Buffer, values []string) error {
 	// Write the list length prefix
-	if err := binary.Write(buf, binary.LittleEndian, T(len(values))); err != nil {
+	n, err := lengthPrefix[T](len(values))
+	if err != nil {
+		return err
+	}
+	if err := binary.Write(buf, binary.LittleEndian, n); err != nil {
 		return err
 	}
 
 	// Write each string with its own length prefix
 	for _, s := range values {
-		if err := binary.Write(buf, binary.LittleEndian, K(len(s))); err != nil {
+		k, err := lengthPrefix[K](len(s))
+		if err != nil {
+			return err
+		}
+		if err := binary.Write(buf, binary.LittleEndian, k); err != nil {
 			return err
 		}
 		buf.WriteString(s)
@@ -319,13 +361,21 @@ func WriteStringListLE[T constraints.Unsigned, K constraints.Unsigned](buf *byte
 
 func WriteStringList[T constraints.Unsigned, K constraints.Unsigned](buf *bytes.Buffer, values []string) error {
 	// Write the list length prefix
-	if err := binary.Write(buf, binary.BigEndian, T(len(values))); err != nil {
+	n, err := lengthPrefix[T](len(values))
+	if err != nil {
+		return err
+	}
+	if err := binary.Write(buf, binary.BigEndian, n); err != nil {
 		return err
 	}
 
 	// Write each string with its own length prefix
 	for _, s := range values {
-		if err := binary.Write(buf, binary.BigEndian, K(len(s))); err != nil {
+		k, err := lengthPrefix[K](len(s))
+		if err != nil {
+			return err
+		}
+		if err := binary.Write(buf, binary.BigEndian, k); err != nil {
 			return err
 		}
 		buf.WriteString(s)
@@ -397,7 +447,11 @@ func ReadStringList[T constraints.Unsigned, K constraints.Unsigned](buf *bytes.B
 // Object
 func WriteObjectList[T constraints.Unsigned, K BinaryCodec](buf *bytes.Buffer, values []K) error {
 	// Write the list length prefix
-	if err := binary.Write(buf, binary.BigEndian, T(len(values))); err != nil {
+	n, err := lengthPrefix[T](len(values))
+	if err != nil {
+		return err
+	}
+	if err := binary.Write(buf, binary.BigEndian, n); err != nil {
 		return err
 	}
 
@@ -431,7 +485,11 @@ func ReadObjectList[T constraints.Unsigned, K BinaryCodec](buf *bytes.Buffer, ne
 // Object
 func WriteObjectListLE[T constraints.Unsigned, K BinaryCodec](buf *bytes.Buffer, values []K) error {
 	// Write the list length prefix
-	if err := binary.Write(buf, binary.LittleEndian, T(len(values))); err != nil {
+	n, err := lengthPrefix[T](len(values))
+	if err != nil {
+		return err
+	}
+	if err := binary.Write(buf, binary.LittleEndian, n); err != nil {
 		return err
 	}
 
